@@ -15,7 +15,7 @@ EXTENDS MiniDyn, Json
 SX == INSTANCE SequencesExt
 SetToSeq(S) == SX!SetToSeq(S)
 
-CONSTANTS Setup, OpMenu, Bound(_)
+CONSTANTS Setup, OpMenu, Bound(_), Allowed(_,_)
 
 VARIABLES db, path
 gvars == <<db, path>>
@@ -28,6 +28,7 @@ ASSUME PrintT(ToJson([kind |-> "header", setup |-> Setup, menu |-> OpMenu]))
 
 GInit == db = RunSetup(InitDB, 1) /\ path = <<>>
 GNext == \E i \in DOMAIN OpMenu : \E oc \in Plan(db, OpMenu[i]).ocs :
+            /\ Allowed(db, OpMenu[i])
             /\ db' = Step(db, OpMenu[i], oc)
             /\ Bound(db')
             /\ path' = Append(path, i)
@@ -37,6 +38,7 @@ Emit == PrintT(ToJson([kind |-> "edge", path |-> path, op |-> path'[Len(path')],
 View == db
 
 LastOp == OpMenu[path[Len(path)]]
+AnyOp(d, e) == TRUE
 
 ----------------------------------------------------------------------------
 (* design-level properties *)
@@ -49,7 +51,7 @@ KeysUnique == \A ct \in TablesOf(db) : \A i, j \in Tbl(db, ct).items : KeyEq(Tbl
 KeysTyped  == \A ct \in TablesOf(db) : \A i \in Tbl(db, ct).items :
                  KeyTypeOK(Tbl(db, ct), i) /\ IdxKeysTyped(Tbl(db, ct), i)
 \* the outcome of every menu operation is determined (generators stay away from lenient positions)
-Determined == \A i \in DOMAIN OpMenu : Cardinality(Plan(db, OpMenu[i]).ocs) = 1
+Determined == \A i \in DOMAIN OpMenu : Allowed(db, OpMenu[i]) => Cardinality(Plan(db, OpMenu[i]).ocs) = 1
 \* index views are sub-collections of the table
 ViewsInside == \A ct \in TablesOf(db) : \A ix \in DOMAIN Tbl(db, ct).idx : IndexView(Tbl(db, ct), ix) \subseteq Tbl(db, ct).items
 
